@@ -31,7 +31,7 @@ def jobs(tier):
     else:
         sh = sched.thorough_shapes(always=False)
     sweep = [("C03", s, "sweep") for s in [("L",), ("L", "L"), (("D", False, ("L",)),), (("D", False, ("L", "L")),)]]
-    return [("C03", s) for s in sh] + sharded(sweep, 8)
+    return sharded(sweep, 8) + [("C03", s) for s in sh]      # the long sweep shards first: they would be the tail otherwise
 
 
 def harness(job, ch):
